@@ -88,7 +88,17 @@ def from_operator(op: OperatorTemplate, updates: dict, return_dict: dict, base: 
 
     # collect operator attributes
     new_dict = {'base': base, 'equations': op.equations, 'variables': dict(op.variables)}  # copy: updates are per node
-    new_dict['variables'].update(updates)
+    for var, val in updates.items():
+        # a node-level value replaces the VALUE of the variable, not its declaration: an overridden initial value of a
+        # state/output/input variable must not be dumped as a bare number (that would declare a constant)
+        decl = new_dict['variables'].get(var)
+        if isinstance(decl, str) and decl.split('(')[0].strip() in ('output', 'variable', 'input') \
+                and not isinstance(val, (str, dict)):
+            new_dict['variables'][var] = f"{decl.split('(')[0].strip()}({val})"
+        elif isinstance(decl, dict) and not isinstance(val, (str, dict)):
+            new_dict['variables'][var] = dict(decl, value=val)
+        else:
+            new_dict['variables'][var] = val
 
     # add operator definition to the return dictionary
     return add_to_dict(op, new_dict, return_dict)
